@@ -106,9 +106,15 @@ where
     FrameFn: FnOnce(&str, u32) -> T2 + Sync,
     T2: Future<Output = Result<FrameIO, Error>>,
 {
+    // Read the request without holding the context lock: a client that is slow to send it must
+    // not block whoever else needs this context (the /live api walks all of them while holding
+    // the registry lock that every new connection needs).
+    let mut socket = ctx.write().await.take_client_stream();
+    let request = HttpRequest::read_from(&mut socket).await;
     let mut ctx_lock = ctx.write().await;
+    ctx_lock.set_client_stream(socket);
+    let request = request?;
     let socket = ctx_lock.borrow_client_stream().unwrap();
-    let request = HttpRequest::read_from(socket).await?;
     tracing::trace!("request={:?}", request);
     if request.method.eq_ignore_ascii_case("CONNECT") {
         let protocol = request.header("Proxy-Protocol", "tcp");
